@@ -1,45 +1,79 @@
 #!/usr/bin/env python3
-"""Development aid (not a registered check): apply one textual edit from dev/mutants.json to /repo, run the listed
-checks, print the verdicts, and restore /repo with `git checkout -- .`.  Breaking edits must be reported by the rule
-named in `expect`, benign edits must leave every listed check at exit 0.
+"""Development aid (not a registered check): apply one textual edit from dev/mutants.json to a scratch worktree of /repo
+(never to /repo itself), run the listed checks against it (VERIF_REPO), print the verdicts.  Breaking edits must be reported by
+the rule named in `expect`, benign edits must leave every listed check at exit 0.
 
-usage: dev/mutate.py [id ...]        (no id: all)"""
-import json, os, subprocess, sys
+usage: dev/mutate.py [-j N] [id ...]        (no id: all; default 8 parallel scratch worktrees under /tmp, removed at the end)"""
+import json, os, shutil, subprocess, sys, tempfile
+from concurrent.futures import ThreadPoolExecutor
+import queue
 HERE = os.path.dirname(os.path.abspath(__file__))
 VERIF = os.path.dirname(HERE)
 M = json.load(open(os.path.join(HERE, 'mutants.json')))
-want = sys.argv[1:]
-res = []
-for m in M:
-    if want and m['id'] not in want:
-        continue
-    path = os.path.join('/repo', m['file'])
-    src = open(path).read()
-    if src.count(m['old']) < 1:
-        print('%-40s  PATTERN NOT FOUND' % m['id'])
-        res.append((m['id'], 'pattern-missing'))
-        continue
-    new = src.replace(m['old'], m['new'], 1 if not m.get('all') else -1)
-    open(path, 'w').write(new)
+args = sys.argv[1:]
+jobs = 8
+if args[:1] == ['-j']:
+    jobs = int(args[1]); args = args[2:]
+want = args
+todo = [m for m in M if not want or m['id'] in want]
+jobs = max(1, min(jobs, len(todo)))
+root = tempfile.mkdtemp(prefix='verif-mut-')
+slots = queue.Queue()
+for i in range(jobs):
+    wt = os.path.join(root, 'wt%d' % i)
+    subprocess.run(['git', '-C', '/repo', 'worktree', 'add', '--detach', wt, 'HEAD'], stdout=subprocess.DEVNULL, stderr=subprocess.DEVNULL, check=True)
+    # the working tree of /repo, not only HEAD, is what is mutated
+    d = subprocess.run(['git', '-C', '/repo', 'diff', 'HEAD'], capture_output=True, text=True).stdout
+    if d.strip():
+        subprocess.run(['git', '-C', wt, 'apply'], input=d, text=True, check=True)
+    slots.put((wt, os.path.join(root, 'cache%d' % i), os.path.join(root, 'out%d' % i)))
+
+
+def one(m):
+    wt, cache, out = slots.get()
     try:
+        path = os.path.join(wt, m['file'])
+        src = open(path).read()
+        if src.count(m['old']) < 1:
+            return m, None, 'PATTERN NOT FOUND'
+        open(path, 'w').write(src.replace(m['old'], m['new'], 1 if not m.get('all') else -1))
+        env = dict(os.environ, VERIF_REPO=wt, VERIF_CACHE=cache, VERIF_OUT_ROOT=out)
         verdicts = {}
-        for pid in m['checks']:
-            p = subprocess.run([os.path.join(VERIF, 'bin', 'check'), pid], stdout=subprocess.PIPE, stderr=subprocess.STDOUT, text=True)
-            rules = sorted({l.split(':')[0].split('] ')[1] for l in p.stdout.splitlines() if l.startswith('[%s] ' % pid) and ': ' in l and ' at ' in l})
-            verdicts[pid] = (p.returncode, rules, [l for l in p.stdout.splitlines() if 'ANALYSIS-BROKEN' in l][:2])
+        try:
+            for pid in m['checks']:
+                p = subprocess.run([os.path.join(VERIF, 'bin', 'check'), pid], stdout=subprocess.PIPE, stderr=subprocess.STDOUT, text=True, env=env)
+                rules = sorted({l.split(':')[0].split('] ')[1] for l in p.stdout.splitlines() if l.startswith('[%s] ' % pid) and ': ' in l and ' at ' in l})
+                verdicts[pid] = (p.returncode, rules, [l for l in p.stdout.splitlines() if 'ANALYSIS-BROKEN' in l][:2])
+        finally:
+            open(path, 'w').write(src)
+        return m, verdicts, None
     finally:
-        subprocess.run(['git', '-C', '/repo', 'checkout', '--', '.'])
-    exp = m.get('expect', {})
-    ok = True
-    for pid, (rc, rules, broken) in verdicts.items():
-        if pid in exp:
-            if rc != 1 or (exp[pid] and exp[pid] not in rules):
-                ok = False
-        else:
-            if rc != 0:
-                ok = False
-    print('%-40s %s  %s' % (m['id'], 'OK  ' if ok else 'FAIL', {k: (v[0], v[1], v[2]) for k, v in verdicts.items()}))
-    res.append((m['id'], ok))
+        slots.put((wt, cache, out))
+
+
+res = []
+try:
+    with ThreadPoolExecutor(max_workers=jobs) as ex:
+        for m, verdicts, err in ex.map(one, todo):
+            if err:
+                print('%-40s  %s' % (m['id'], err), flush=True)
+                res.append((m['id'], 'pattern-missing'))
+                continue
+            exp = m.get('expect', {})
+            ok = True
+            for pid, (rc, rules, broken) in verdicts.items():
+                if pid in exp:
+                    if rc != 1 or (exp[pid] and exp[pid] not in rules):
+                        ok = False
+                elif rc != 0:
+                    ok = False
+            print('%-40s %s  %s' % (m['id'], 'OK  ' if ok else 'FAIL', {k: (v[0], v[1], v[2]) for k, v in verdicts.items()}), flush=True)
+            res.append((m['id'], ok))
+finally:
+    for i in range(jobs):
+        subprocess.run(['git', '-C', '/repo', 'worktree', 'remove', '--force', os.path.join(root, 'wt%d' % i)], stdout=subprocess.DEVNULL, stderr=subprocess.DEVNULL)
+    shutil.rmtree(root, ignore_errors=True)
+    subprocess.run(['git', '-C', '/repo', 'worktree', 'prune'])
 bad = [r for r in res if r[1] is not True]
 print('%d mutant(s), %d not as expected' % (len(res), len(bad)))
 sys.exit(1 if bad else 0)
